@@ -966,6 +966,15 @@ class C05(Prop):
                 out.append(self.mk("reg-crlf-after-token.%s.%d" % (m, ps), b"a  \r\nb  \r", m, ps, ["fetchtoken sep=20", "fetchtoken sep=20", "fetchtokenstr sep=20", "gettoken sep=20", "gettoken sep=20"]))
                 out.append(self.mk("reg-read-multipage.%s.%d" % (m, ps), b"0123456789", m, ps, ["read k=7", "read k=4", "read k=3", "read k=1"]))
                 out.append(self.mk("reg-setoffset-end.%s.%d" % (m, ps), b"ab\ncd", m, ps, ["setanchor o=0", "getline", "getline", "setoffset o=3", "getline", "raise o=0"]))
+        # allocation-size coincidence under a stable anchor: after the rebase exactly one page is free behind the loaded bytes (n + pagesize == balloc),
+        # so the next refill must NOT reallocate (stable_ptr_valid_iff, right-hand side `n + pagesize <= balloc`); `moved=` is compared exactly
+        for m in ("stream", "pipe", "file"):
+            for ps in (2, 3, 4, 8, 16):
+                # ps bytes for the Read, then ONE line that ends with the input after 2*ps-1 more bytes: the refill inside GetLine reads a short page
+                # (end of file) into the free page, and no later refill can reallocate - so `moved` must stay off until the anchor is raised
+                body = b"x" * ps + b"y" * (2 * ps - 2) + b"\n"
+                out.append(self.mk("stable-room.%s.%d" % (m, ps), body, m, ps,
+                                   ["setanchor o=0", "read k=%d" % ps, "raise o=0", "setstable o=%d" % ps, "get", "getline", "getline", "raise o=%d" % ps, "getline"]))
         # boundary lengths: inputs of 1-3 bytes in every way of opening them, with and without page-size override
         tiny = [b"a", b"\n", b"\r", b" ", b"a\n", b"\r\n", b"ab", b"a ", b"a\r\n", b"\n\n", b"a\nb"]
         tops = [["getline", "getline", "get"], ["gettoken sep=20", "gettoken sep=20", "gettoken sep=20"], ["read k=1", "read k=1", "read k=1", "read k=1"],
@@ -1107,12 +1116,22 @@ class C05(Prop):
         ops = case["ops"]
         n = max(len(impl_out), len(model_out))
         src0 = b"" if case.get("mem") else case_cfg(ops[0])[0]   # round4-mem
+        stable_seen = stable_over = False
         for i in range(n):
             a = self.canonical(impl_out[i]) if i < len(impl_out) else "<missing>"
             b = self.canonical(model_out[i]) if i < len(model_out) else "<missing>"
             if a != b and 0 < i < len(ops) and ops[i] == "get" and a.split()[:1] == b.split()[:1] and a.split()[-1:] == b.split()[-1:] and case.get("ps", 0) == 0:
                 continue      # without a page-size override how much Get exposes depends on st_blksize (the monitor checks prefix + page guarantee); with the override the window is compared exactly
             if a != b: return (i, a, b)
+            # the window was reallocated/moved since the stable anchor was set: exact (ASan's realloc always moves the block), which ties
+            # stable_ptr_valid_iff to the code; not on wild histories, where a stable anchor ahead of the cursor makes a memmove (same block) count in the model
+            # (only during the FIRST stable-anchor episode of a case: the allocation history before and inside it does not depend on how a
+            # repaired buffer_refill() would grow the window under a stable anchor, cf. /var/tmp/fixes-proposed/C05-stable-anchor-keep-oldmem.patch)
+            if not case.get("wild") and not case.get("mem") and i < len(impl_out) and i < len(model_out) and not stable_over:
+                ma, mb = "moved=1" in impl_out[i].split(), "moved=1" in model_out[i].split()
+                if ma != mb: return (i, "implementation: window %s since the stable anchor was set" % ("moved" if ma else "not moved"), "model: %s" % ("moved" if mb else "not moved"))
+                if 0 < i < len(ops) and ops[i].startswith("setstable") and b.startswith("ok") and " a=-" not in b: stable_seen = True
+                elif stable_seen and " a=-" in b: stable_over = True
         if case.get("wild") and is_mem_case(case):
             # outside the contract on a whole-input buffer: the Lean specification `memStep` prescribes what the python copy prescribes
             sp = Spec(src0)
